@@ -87,11 +87,19 @@ func runC11(s *kernel.Sim) {
 	os.Setenv("LUNAR_PROXY_CONFIG_DIR", dir)
 	hp := installHAProxy()
 	failNext := false
+	slowFor := time.Duration(0) // the next call to HAProxy's admin API takes this long to answer
 	hp.Fail = func(method, path, body string) string {
 		if failNext && !strings.Contains(path, "healthcheck") {
 			return "500"
 		}
 		return ""
+	}
+	hp.Delay = func(method, path string) time.Duration {
+		if d := slowFor; d > 0 && !strings.Contains(path, "healthcheck") {
+			slowFor = 0
+			return d
+		}
+		return 0
 	}
 	marker := 0
 	writePol := func(m int) {
@@ -142,6 +150,57 @@ func runC11(s *kernel.Sim) {
 			}
 		}
 		s.SleepUntil(targets[tp.Choose(len(targets))])
+		if tp.Chance(1, 10) {
+			// a reload whose HAProxy step takes several seconds (many endpoints, a slow
+			// admin API). Transactions first seen in the meantime belong to the version
+			// that is still current; it has to be kept for the whole retention period
+			// after it was superseded - not after the reload began
+			d := time.Duration(tp.Range(2, 12)) * time.Second
+			marker++
+			writePol(marker)
+			slowFor = d
+			var aerr error
+			done := false
+			startSeq := s.Seq()
+			at := s.Spawn(fmt.Sprintf("slow-apply-%d", marker), func() { aerr = acc.ReloadFromFile(); done = true })
+			for x := 0; x < 50 && !done && at.Parked(); x++ {
+				s.Resume(at) // runs on into the slow answer
+			}
+			nDuring := tp.Range(1, 2)
+			for j := 0; j < nDuring && !done; j++ {
+				s.Sleep(d / time.Duration(nDuring+1))
+				if done {
+					break
+				}
+				n++
+				tx := &c11txn{id: fmt.Sprintf("%s%d", idPrefix, n), reqT: s.Now(), reqSeq: s.Seq()}
+				tx.reqM = lookup(tx.id)
+				s.Event("txn_request", tx.id, tx.reqM, "during a slow apply")
+				open = append(open, tx)
+			}
+			for x := 0; x < 400 && !done; x++ {
+				if at.Parked() {
+					s.Resume(at)
+				} else {
+					s.Sleep(500 * time.Millisecond)
+				}
+			}
+			if !done {
+				s.Violate("R2", "apply-did-not-return", "ReloadFromFile with a HAProxy admin API that takes %v to answer has not returned after %v", d, 200*time.Second)
+				return
+			}
+			if aerr != nil {
+				s.Violate("R2", "apply-failed", "ReloadFromFile failed without an injected fault: %v", aerr)
+				return
+			}
+			s.Event("apply-slow", fmt.Sprintf("marker-%d", marker), d.String())
+			s.FaultFired("slow_haproxy_step_during_apply")
+			current = fmt.Sprintf("marker-%d", marker)
+			lastLoaded = current
+			alsoCurrent = map[string]bool{}
+			applySeqs = append(applySeqs, startSeq)
+			continue
+		}
 		k := 1
 		if concP > 0 && tp.Chance(concP, 6) {
 			k = tp.Range(2, 4)
